@@ -62,7 +62,21 @@ def replay_order(ctx, clause):
         f = p.method("EndpointSGraph", name)
         body = [s for s in f.node.body if not (isinstance(s, ast.Expr) and isinstance(s.value, ast.Constant))]
         problems = []
-        if len(body) != 2 or not isinstance(body[0], ast.If) or not isinstance(body[1], ast.For):
+        # creating a generator runs nothing: `remote = self._yield_remote_x(...)` ahead of the fill is the fill's own iterable
+        lazy = {}
+        while body and isinstance(body[0], ast.Assign) and len(body[0].targets) == 1 and isinstance(body[0].targets[0], ast.Name) \
+                and isinstance(body[0].value, ast.Call):
+            cands = [t for t in ctx.r.resolve(body[0].value, f)[0] if hasattr(t, "node")]
+            if not cands or not all(any(isinstance(x, (ast.Yield, ast.YieldFrom)) for x in walk_own(m.node)) for m in cands):
+                break
+            lazy[body[0].targets[0].id] = norm(body[0].value)
+            body = body[1:]
+
+        def _is_replay(st):
+            if isinstance(st, ast.For):
+                return "self._local_sgraph." in norm(st.iter) and any(isinstance(x, ast.Yield) for x in ast.walk(st))
+            return isinstance(st, ast.Expr) and isinstance(st.value, ast.YieldFrom) and "self._local_sgraph." in norm(st.value.value)
+        if len(body) != 2 or not isinstance(body[0], ast.If) or body[0].orelse or not isinstance(body[1], (ast.For, ast.Expr)):
             problems.append("not `if node not tracked: <fill>` followed by `for ... in local graph: yield`")
         else:
             fill = body[0]
@@ -74,19 +88,57 @@ def replay_order(ctx, clause):
             kinds = []
             for s in fill.body:
                 if isinstance(s, ast.For):
-                    kinds.append("store" if "_store_triple_locally" in norm(s) else "loop")
+                    it = lazy.get(s.iter.id, "") if isinstance(s.iter, ast.Name) else norm(s.iter)
+                    kinds.append("store" if "_store_triple_locally" in norm(s) and "_yield_remote_" in it else "loop")
                 elif isinstance(s, ast.Expr) and ".add(" in norm(s):
                     kinds.append("mark")
                 else:
                     kinds.append("other")
             if kinds != ["store", "mark"]:
                 problems.append("fill sequence is %s, expected [store every remote triple, then mark the node]" % kinds)
-            replay = body[1]
-            if "self._local_sgraph." not in norm(replay.iter) or not any(isinstance(x, ast.Yield) for x in ast.walk(replay)):
+            if not _is_replay(body[1]):
                 problems.append("the answer is not replayed from the local graph")
         obs.append(Ob(clause, "R-ORDER", "R-ORDER|cache-fill-then-replay|%s" % f.short, f.loc(), not problems,
                       "%s stores the whole remote answer, marks the node, then replays from the local graph" % f.short if not problems
                       else "; ".join(problems)))
+    return obs
+
+
+TRACKED = {"yield_p_o_triples_of_an_s": "_subjects_tracked", "yield_class_triples_of_an_s": "_subjects_tracked",
+           "yield_s_p_triples_of_an_o": "_objects_tracked"}
+
+
+def tracked_set_pairing(ctx, clause):
+    """The endpoint cache remembers two different things: the nodes whose outgoing triples were fetched and the nodes whose
+    incoming triples were fetched.  Each public traversal consults and extends its own set, however the code between the
+    public method and the set is organised (own helper per direction, one helper that is handed the set, ...): the sets
+    mentioned by the method and by the methods of the object it calls are exactly the one of its direction."""
+    p = ctx.p
+    cls = p.find_class("EndpointSGraph")
+    fields = set(TRACKED.values())
+    init = cls.find_method("__init__")
+    have = {t.attr for x in walk_own(init.node) if isinstance(x, ast.Assign) for t in x.targets if is_self_attr(t)}
+    if not fields <= have:
+        raise AnalysisError("EndpointSGraph.__init__ no longer creates %s" % sorted(fields - have))
+
+    def mentioned(m, depth, seen):
+        out = {x.attr for x in walk_own(m.node) if is_self_attr(x) and x.attr in fields}
+        if depth < 5:
+            for c in walk_own(m.node):
+                if isinstance(c, ast.Call) and isinstance(c.func, ast.Attribute) and isinstance(c.func.value, ast.Name) and c.func.value.id == "self":
+                    t = cls.find_method(c.func.attr)
+                    if t is not None and t.qual not in seen:
+                        out |= mentioned(t, depth + 1, seen | {t.qual})
+        return out
+    obs = []
+    for name, want in TRACKED.items():
+        m = p.method("EndpointSGraph", name)
+        got = mentioned(m, 0, {m.qual})
+        ok = got == {want}
+        obs.append(Ob(clause, "R-FLOW", "R-FLOW|tracked-set|%s" % name, m.loc(), ok,
+                      "%s keeps its cache bookkeeping in %s only" % (name, want) if ok else
+                      "%s consults / extends %s, expected exactly %s: with the cache on, a node already fetched in the other direction "
+                      "is never asked for this one (or is asked every time)" % (name, sorted(got) or "no tracked set", want)))
     return obs
 
 
@@ -202,6 +254,9 @@ def check(ctx, tier):
         obs += ctx.attempt(lambda c, cl, o=_opt: plumb.forwarding(c, cl, o, lambda prm: prm == o,
                                                                    [c.flow.param("shexer.shaper:Shaper.__init__", o)],
                                                                    skip_funcs={"shexer.shaper:Shaper.__init__"})[0], ctx, "D-f", default=[])
+    obs += ctx.attempt(tracked_set_pairing, ctx, "D-c", default=[])
+    from ..rules import plumb as _plumb
+    obs += ctx.attempt(_plumb.namespace_orientation, ctx, "D-h", default=[])
     exceptions.apply(obs)
     return {"obs": obs, "floors": [Floor("EndpointSGraph construction sites", n_sites, 3), Floor("cache-flag control sites", len(oi.sites), 4),
                                    Floor("options common to both passes", n_tp, 20)],
